@@ -32,6 +32,9 @@ import (
 
 type parserFinding struct{ rule, disc, pos, msg string }
 
+// side channel for rules that compare other code with the tokenizer's tables (C14-R2)
+var lastTrims, lastSplitters map[string]string
+
 var firstDomain = []string{"comment", "space", "tab", "dash", "other"}
 
 func analyseParserLoop(c *core.Ctx, want map[string]bool) {
@@ -535,6 +538,7 @@ func analyseParserLoop(c *core.Ctx, want map[string]bool) {
 			}
 		}
 	}
+	lastTrims, lastSplitters = trims, splitters
 	if want["C04-R3"] {
 		checkTrimTables(c, fname, trims, splitters, report)
 	}
